@@ -354,7 +354,7 @@ func genTransportSkel(repo string) (string, error) {
 		{"closerOnce", "Close"},
 		// the endpoint's dial handlers, its connection set and its serve loop
 		{"endpointServer", "handleDial"}, {"endpointServer", "handleDialSide2"}, {"endpointServer", "handleDialSide"},
-		{"endpointServer", "findSession"}, {"endpointServer", "handleClose"},
+		{"endpointServer", "findSession"}, {"endpointServer", "handleClose"}, {"endpointServer", "sideConn"},
 		{"endpointServer", "cleanup"}, {"endpointServer", "serve"},
 		{"connections", "add"}, {"connections", "get"}, {"connections", "remove"}, {"connections", "shutdown"},
 		{"", "newConnection"}, {"connection", "cleanup"},
@@ -509,7 +509,37 @@ func genTransportSkel(repo string) (string, error) {
 			return true
 		})
 	}
-	fmt.Fprintf(&b, "Definition gen_exchange_id_writers : list (string * string) :=\n  %s.\n", coqList(writers))
+	fmt.Fprintf(&b, "Definition gen_exchange_id_writers : list (string * string) :=\n  %s.\n\n", coqList(writers))
+
+	// What serve does with a call it takes off the queue once shutdownCalled
+	// is set: the statements executed on that path of the calls arm, following
+	// Go's control flow (an unlabelled break leaves the innermost for / switch /
+	// select -- which is what decides whether a rejected call goes on to be
+	// sent and recorded).
+	path := []string{coqStr("unknown serve's calls arm not found")}
+	if fd := p.funcDecl("transport", "serve"); fd != nil && fd.Body != nil {
+		ast.Inspect(fd.Body, func(n ast.Node) bool {
+			cc, ok := n.(*ast.CommClause)
+			if !ok || cc.Comm == nil {
+				return true
+			}
+			as, ok := cc.Comm.(*ast.AssignStmt)
+			if !ok || len(as.Rhs) != 1 {
+				return true
+			}
+			if ch, ok := recvOf(as.Rhs[0]); !ok || p.src(ch) != "tr.calls" {
+				return true
+			}
+			pw := &pathWalker{p: p, truth: map[string]bool{"shutdownCalled": true}}
+			pw.list(cc.Body)
+			path = nil
+			for _, l := range pw.lines {
+				path = append(path, coqStr(l))
+			}
+			return false
+		})
+	}
+	fmt.Fprintf(&b, "Definition gen_rejected_call_path : list string :=\n  %s.\n", coqList(path))
 	return b.String(), nil
 }
 
@@ -625,7 +655,63 @@ func genServerSkel(repo string) (string, error) {
 			}
 		}
 	}
-	fmt.Fprintf(&b, "Definition gen_conn_closing_methods : list string :=\n  %s.\n", coqList(forcing))
+	fmt.Fprintf(&b, "Definition gen_conn_closing_methods : list string :=\n  %s.\n\n", coqList(forcing))
+
+	// Who changes the registry: the functions that assign to / delete from
+	// an endpoints map, and every call of unmap with the function it is in and
+	// whether it runs deferred.
+	var regWriters, unmapCallers []string
+	for _, fd := range p.allFuncs() {
+		if fd.Body == nil {
+			continue
+		}
+		name := skelFn{recvName(fd), fd.Name.Name}.String()
+		writes := false
+		isEndpoints := func(e ast.Expr) bool {
+			ix, ok := e.(*ast.IndexExpr)
+			if !ok {
+				return false
+			}
+			se, ok := ix.X.(*ast.SelectorExpr)
+			return ok && se.Sel.Name == "endpoints"
+		}
+		var walk func(n ast.Node, deferred bool)
+		walk = func(n ast.Node, deferred bool) {
+			ast.Inspect(n, func(m ast.Node) bool {
+				switch x := m.(type) {
+				case *ast.DeferStmt:
+					walk(x.Call, true)
+					return false
+				case *ast.AssignStmt:
+					for _, l := range x.Lhs {
+						if isEndpoints(l) {
+							writes = true
+						}
+					}
+				case *ast.CallExpr:
+					if id, ok := x.Fun.(*ast.Ident); ok && id.Name == "delete" && len(x.Args) == 2 {
+						if se, ok := x.Args[0].(*ast.SelectorExpr); ok && se.Sel.Name == "endpoints" {
+							writes = true
+						}
+					}
+					if se, ok := x.Fun.(*ast.SelectorExpr); ok && se.Sel.Name == "unmap" {
+						how := "plain"
+						if deferred {
+							how = "deferred"
+						}
+						unmapCallers = append(unmapCallers, fmt.Sprintf("(%s, %s)", coqStr(name), coqStr(how)))
+					}
+				}
+				return true
+			})
+		}
+		walk(fd.Body, false)
+		if writes {
+			regWriters = append(regWriters, coqStr(name))
+		}
+	}
+	fmt.Fprintf(&b, "Definition gen_registry_writers : list string :=\n  %s.\n\n", coqList(regWriters))
+	fmt.Fprintf(&b, "Definition gen_unmap_callers : list (string * string) :=\n  %s.\n", coqList(unmapCallers))
 	return b.String(), nil
 }
 
@@ -877,6 +963,159 @@ func genDialSkel(repo string) (string, error) {
 			return true
 		})
 	}
-	fmt.Fprintf(&b, "Definition gen_serveCall_routes : list (string * string) :=\n  %s.\n", coqList(routes))
+	fmt.Fprintf(&b, "Definition gen_serveCall_routes : list (string * string) :=\n  %s.\n\n", coqList(routes))
+
+	// Under which context does the side handler dial its side websocket?  The
+	// first argument of every dialSide call in endpointServer.sideConn, traced
+	// back to the expression that made it (ctx, cancel := <expr>).
+	var ctxs []string
+	if fd := p.funcDecl("endpointServer", "sideConn"); fd != nil && fd.Body != nil {
+		defs := map[string]string{}
+		ast.Inspect(fd.Body, func(n ast.Node) bool {
+			if as, ok := n.(*ast.AssignStmt); ok && len(as.Rhs) == 1 && len(as.Lhs) >= 1 {
+				if id, ok := as.Lhs[0].(*ast.Ident); ok {
+					defs[id.Name] = p.src(as.Rhs[0])
+				}
+			}
+			return true
+		})
+		ast.Inspect(fd.Body, func(n ast.Node) bool {
+			c, ok := n.(*ast.CallExpr)
+			if !ok || len(c.Args) == 0 {
+				return true
+			}
+			if se, ok := c.Fun.(*ast.SelectorExpr); !ok || se.Sel.Name != "dialSide" {
+				return true
+			}
+			arg := p.src(c.Args[0])
+			if id, ok := c.Args[0].(*ast.Ident); ok {
+				if d, ok := defs[id.Name]; ok {
+					arg = d
+				}
+			}
+			ctxs = append(ctxs, coqStr(arg))
+			return true
+		})
+	}
+	fmt.Fprintf(&b, "Definition gen_sideConn_dial_ctx : list string :=\n  %s.\n", coqList(ctxs))
 	return b.String(), nil
+}
+
+// ---- one path through a statement list -----------------------------------------------------
+
+// pathWalker follows Go's control flow through a list of statements on the
+// path on which the identifiers in truth have the given boolean values, and
+// records every simple statement executed.  A condition it cannot decide is
+// recorded as "if? <cond>" and its body is followed as well (the path then
+// over-approximates).  Unknown statement shapes are recorded as "unknown".
+type pathWalker struct {
+	p     *pkg
+	truth map[string]bool
+	lines []string
+}
+
+type flow int
+
+const (
+	flowNext   flow = iota // falls through to the next statement
+	flowBreak              // an unlabelled break is looking for its for / switch / select
+	flowLeaves             // return, continue, goto, labelled break: the path leaves the list
+)
+
+func (w *pathWalker) decide(e ast.Expr) (val, known bool) {
+	switch x := e.(type) {
+	case *ast.Ident:
+		v, ok := w.truth[x.Name]
+		return v, ok
+	case *ast.ParenExpr:
+		return w.decide(x.X)
+	case *ast.UnaryExpr:
+		if x.Op == token.NOT {
+			v, ok := w.decide(x.X)
+			return !v, ok
+		}
+	}
+	return false, false
+}
+
+func (w *pathWalker) list(ss []ast.Stmt) flow {
+	for _, s := range ss {
+		if f := w.stmt(s); f != flowNext {
+			return f
+		}
+	}
+	return flowNext
+}
+
+func (w *pathWalker) stmt(s ast.Stmt) flow {
+	switch x := s.(type) {
+	case *ast.ExprStmt:
+		if !isLogCall(x.X) {
+			w.lines = append(w.lines, "call "+w.p.src(x.X))
+		}
+	case *ast.AssignStmt, *ast.IncDecStmt, *ast.DeclStmt, *ast.SendStmt:
+		w.lines = append(w.lines, "do "+w.p.src(s))
+	case *ast.BlockStmt:
+		return w.list(x.List)
+	case *ast.ReturnStmt:
+		w.lines = append(w.lines, w.p.src(s))
+		return flowLeaves
+	case *ast.BranchStmt:
+		if x.Tok == token.BREAK && x.Label == nil {
+			return flowBreak
+		}
+		w.lines = append(w.lines, w.p.src(s))
+		return flowLeaves
+	case *ast.IfStmt:
+		if x.Init != nil {
+			if f := w.stmt(x.Init); f != flowNext {
+				return f
+			}
+		}
+		v, known := w.decide(x.Cond)
+		switch {
+		case known && v:
+			return w.list(x.Body.List)
+		case known && !v:
+			if x.Else != nil {
+				return w.stmt(x.Else)
+			}
+		default:
+			w.lines = append(w.lines, "if? "+w.p.src(x.Cond))
+			if f := w.list(x.Body.List); f == flowBreak {
+				return f // (over-approximation: the break is taken)
+			}
+			if x.Else != nil {
+				return w.stmt(x.Else)
+			}
+		}
+	case *ast.SwitchStmt:
+		if x.Init != nil || x.Tag != nil {
+			w.lines = append(w.lines, "unknown "+w.p.src(s))
+			return flowNext
+		}
+		for _, c := range x.Body.List {
+			cc := c.(*ast.CaseClause)
+			taken := cc.List == nil
+			for _, e := range cc.List {
+				v, known := w.decide(e)
+				if !known {
+					w.lines = append(w.lines, "case? "+w.p.src(e))
+				}
+				if known && v {
+					taken = true
+				}
+			}
+			if taken {
+				// an unlabelled break inside ends the switch, nothing more
+				if f := w.list(cc.Body); f == flowLeaves {
+					return f
+				}
+				return flowNext
+			}
+		}
+	default:
+		w.lines = append(w.lines, "unknown "+w.p.src(s))
+	}
+	return flowNext
 }
